@@ -146,11 +146,18 @@ let h_classify (req : json) : json =
   let classes =
     (if known_lbrace_trivia ts then [ Str "Known_lbrace_trivia" ] else [])
     @ (if import_arg_trivia ts then [ Str "import_arg_trivia" ] else [])
-    @ (if known_same_line_statements ts then [ Str "Known_same_line_statements" ] else []) in
+    @ (if known_same_line_statements ts then [ Str "Known_same_line_statements" ] else [])
+    @ (if known_multiline_comment ts then [ Str "Known_multiline_comment" ] else []) in
   Obj [ ("classes", Arr classes); ("wf", Bool (wf_tokens ts));
         ("all_comments", jlist jtext (all_comments ts)); ("emitted_comments", jlist jtext (emitted_comments ts));
         ("no_lbrace_comments", jlist jtext (tokens_comments false true ts)) ]
 
+(* C13: the chunk list describing the lines join_chunks emitted, and whether the input is in the theorem's domain *)
+let h_rechunk (req : json) : json =
+  let o = options_of (field req "fmt") in
+  let cs = List.map chunk_of (to_list (field req "chunks")) in
+  Obj [ ("rechunked", jlist jchunk (rechunk cs o)); ("stable", Bool (stable_chunks cs)) ]
+
 let h_nows (req : json) : json = Obj [ ("nows", jtext (nows (text_of (field req "text")))) ]
 
-let () = main_loop [ ("join", h_join); ("format", h_format); ("classify", h_classify); ("nows", h_nows) ]
+let () = main_loop [ ("join", h_join); ("format", h_format); ("classify", h_classify); ("rechunk", h_rechunk); ("nows", h_nows) ]
